@@ -59,6 +59,21 @@ def gen_cases(tier, seed):
         cases.append({"id": "sdmxhist-%03d-%s" % (i, kinds[i % 6]), "kind": "sdmxhist", "sdmx": kinds[i % 6],
                       "mol": ["H2", "H2O", "He", "LiH", "H", "NH2"][(i + i // 6) % 6], "basis": ["6-31g", "sto-3g", "def2-svp"][i % 3],
                       "seed": seed, "idx": 4000 + i, "_threads": 2, "_weight": 1.0, "_timeout": 900})
+    # two fragments far apart, evaluated in one block and in many: the integrator switches between its dense and sparse
+    # AO-contraction paths per block (screening mask), so the block size changes which path each part of the grid takes
+    nfb = 4 if tier == "quick" else 24
+    ffam = ["sl-npa", "vj-mgga", "sl-nst", "sdmx", "sl-np", "vk-mgga"]
+    for i in range(nfb):
+        c = dict(family=ffam[i % len(ffam)], mode=["SEP", "NPOL"][i % 2], evaluator="rbf", mix=["pure", "mgga", "xmix"][i % 3], basis="6-31g",
+                 level=1, model="xc1", spin=["rks", "uks"][(i // 2) % 2], frag=[("LiH", "HF"), ("H2O", "H2O"), ("HF", "HF")][i % 3],
+                 dist=[9.0, 6.0, 8.0][i % 3])
+        if c["family"] in NLDF:
+            c["plan_type"] = ["gaussian", "spline"][i % 2]
+            c["interp"] = "onsite_direct"
+        if c["family"] == "sl-np" and c["mix"] == "mgga":
+            c["mix"] = "xmix"   # GGA-level CIDER features only with GGA-level XC (documented restriction)
+        cases.append({"id": "farblock-%03d-%s-%s" % (i, c["family"], c["spin"]), "kind": "farblock", "cfg": c, "seed": seed, "idx": 4500 + i,
+                      "_threads": 2, "_weight": 4.0, "_timeout": 1800})
     nc = 12 if tier == "quick" else 120
     for i in range(nc):
         cases.append({"id": "chunk-%03d" % i, "kind": "chunk", "seed": seed, "idx": 5000 + i, "_threads": 2})
@@ -70,7 +85,35 @@ def gen_cases(tier, seed):
 
 def run_case(case, rec):
     rng = rng_for(case["seed"], PROP_NO, case["idx"])
-    {"hist": _hist, "chunk": _chunk, "alias": _alias, "genhist": _genhist, "sdmxhist": _sdmxhist}[case["kind"]](case, rec, rng)
+    {"hist": _hist, "chunk": _chunk, "alias": _alias, "genhist": _genhist, "sdmxhist": _sdmxhist, "farblock": _farblock}[case["kind"]](case, rec, rng)
+
+
+def _farblock(case, rec, rng):
+    from vlib import gen
+    cfg = case["cfg"]
+    for k in ("family", "mode", "mix", "spin", "plan_type"):
+        if cfg.get(k) is not None:
+            rec.tag(k, cfg[k])
+    a, b = cfg["frag"]
+    d = float(cfg["dist"]) + float(rng.uniform(-0.5, 0.5))
+    atoms = list(gen.MOLS[a][0]) + [(s_, (x + d, y + 0.7, z - 0.4)) for s_, (x, y, z) in gen.MOLS[b][0]]
+    mol = gen.make_mol(None, cfg["basis"], rng, jitter=0.03, atoms=atoms, spin=0, charge=0)
+    rec.tag("system", "%s...%s at %.0f A" % (a, b, cfg["dist"]))
+    model = gen.build_model(cfg, rng)
+    ks = gen.build_ks(cfg, rng, mol=mol, model=model)[2]
+    nspin = 1 if cfg["spin"] == "rks" else 2
+    dm = gen.psd_dm(mol, rng, nspin)
+    n0, e0, v0 = gen.nr_eval(ks, dm)
+    vs = max(float(np.max(np.abs(v0))), 1e-3)
+    for mm in (1.0, 0.2, 0.05):
+        n1, e1, v1 = gen.nr_eval(ks, dm, max_memory=mm)
+        det = {"max_memory": mm, "ngrids": int(ks.grids.weights.size)}
+        rec.check("blocking_vmat[far-apart]", float(np.max(np.abs(np.asarray(v1) - np.asarray(v0)))) / vs, TOL,
+                  mechanism="nr_%s:blocking:vmat[far-apart fragments]" % cfg["spin"], detail=det)
+        rec.check("blocking_energy[far-apart]", float(np.max(np.abs(np.asarray(e1) - np.asarray(e0)))) / max(abs(float(np.atleast_1d(e0)[0])), 1e-3), TOL,
+                  mechanism="nr_%s:blocking:energy[far-apart fragments]" % cfg["spin"], detail=det)
+        rec.nontrivial("mm%g" % mm)
+    rec.set_sample({"cfg": cfg, "distance_A": d, "ngrids": int(ks.grids.weights.size), "exc": float(np.atleast_1d(e0)[0])})
 
 
 def _sdmxhist(case, rec, rng):
